@@ -369,6 +369,9 @@ M('F49R', 'src/xdoctest/doctest_example.py', """                        if self.
 M('F50R', 'src/xdoctest/doctest_example.py', """                test_globals['__annotations__'] = dict(test_globals['__annotations__'])""", """                pass""", ['C11'], 'F50 repair reverted: annotated assignments of a doctest land in the module')
 M('F53R', 'src/xdoctest/parser.py', """                  getattr(last_node, 'end_lineno', None) == last_node.lineno):""", """                  getattr(last_node, 'end_lineno', None) == -1):""", ['C20'], 'F53 repair reverted: a one-line compound statement does not show the values of its body')
 M('F54R', 'src/xdoctest/dynamic_analysis.py', """                        subkey = subkey[len(mangle_prefix) - 2:]""", """                        pass""", ['C16'], 'F54 repair reverted: dynamic analysis names class-private methods by their mangled key')
+M('F56R', 'src/xdoctest/parser.py', """                        if nxt[:1] in ' \\t':
+                            return False""", """                        if nxt[:1] in '':
+                            return False""", ['C04'], 'F56 repair reverted: a column-0 comment inside a block gets a stand-in statement')
 M('F17R', 'src/xdoctest/doctest_example.py', """                part_directive = None
                 try:
                     try:
